@@ -108,3 +108,34 @@ func VerifC18_DuplicateCreate() {
 	zz.Assert(f.g.VerifLen() == 1 && channels.VerifSameRecord(&pre, post), "the existing channel's state is exactly as it was")
 	zz.Assert(len(f.events) == 0, "and it sees no event")
 }
+
+// VerifC18_ConcurrentNext3 (thorough): three goroutines x two IDs each.
+//
+//verif:tier thorough
+//verif:opts preempt sched=16 part0=8 part1=2 preemptfn=(*github.com/filecoin-project/go-data-transfer/v2/impl.timeCounter).next
+func VerifC18_ConcurrentNext3() {
+	seed := zz.Uint64("seed")
+	zz.Assume(seed < 1<<63)
+	tc := &timeCounter{counter: seed}
+	var ids [3][2]uint64
+	done := make(chan struct{}, 3)
+	for k := 0; k < 3; k++ {
+		k := k
+		go func() { ids[k][0] = tc.next(); ids[k][1] = tc.next(); done <- struct{}{} }()
+	}
+	<-done
+	<-done
+	<-done
+	for a := 0; a < 3; a++ {
+		zz.Assert(ids[a][1] > ids[a][0] && ids[a][0] > seed, "increasing per caller, above the seed")
+		for b := a + 1; b < 3; b++ {
+			for i := 0; i < 2; i++ {
+				for j := 0; j < 2; j++ {
+					zz.Assert(ids[a][i] != ids[b][j], "transfer IDs are unique under concurrent opens")
+				}
+			}
+		}
+	}
+	zz.Assert(tc.next() == seed+7, "exactly six IDs were issued")
+	zz.Reach("done")
+}
